@@ -266,7 +266,7 @@ def _array_set(args, unused_options):
     if index >= len(array):
         raise ValueArgsError('index', index)
 
-    array[index] = value
+    array[int(index)] = value
     return value
 
 _ARRAY_SET_ARGS = value_args_model([
